@@ -26,11 +26,14 @@ RULE = ("random histories (length <= 15, thorough <= 25) per object: FunctionSig
         "fractions - 0.1, 0.3, 0.7, 1/3, 1e-9, 0.7e-9 and the Askaryan/noise grids - also buffers on and one ulp next to "
         "k*dt, decimal literals, accumulated sums, and values for which fl(b/dt) is an integer while b % dt != 0), "
         "resample, with_times, + (with function-backed, sampled and empty signals, both operand orders), copy, *, "
+        "*= and /= by 2, -0.5, 3, 0.7 checked against the values read before the scaling, set_buffers calls that are "
+        "rejected after the leading part was written, "
         "in-place edit of `times` handed back as the same object (times += d; t = times; t += d; times = t); "
         "tracers and paths - assignments of from_point, to_point, ice, dz, theta0, direct and of the class-level "
         "settings max_reflections, uniformity_factor, beta_tolerance, solution_sorting, in-place edits of an endpoint "
         "array handed back as the same object (obj.to_point += d; p = obj.from_point; p[2] = z; obj.from_point = p), "
-        "on all four tracer families and on their paths (layered paths included), interleaved with reads of "
+        "on all four tracer families (constructor arguments as tuple, list or caller-owned float arrays that the caller "
+        "edits afterwards; a user subclass of UniformRayTracer) and on their paths (layered paths included), interleaved with reads of "
         "single lazy properties and of all of them; a step is non-trivial when a read preceded it and a read follows "
         "it; distinct = distinct (class, history prefix) pairs")
 LEVEL_TEXT = ("theorems: a method whose extracted effect list passes `safe` preserves cache coherence; every "
@@ -488,16 +491,36 @@ def signal_history(ctx, nsteps):
                 s.times = t
                 ctx.hist.append("t = times; t += %g; times = t (same object)" % d)
             tr.tok("a:times")
-        elif op == "imul":
-            k = rng.choice([2.0, -0.5])
-            s *= k
-            tr.tok("call:__imul__")
-            ctx.hist.append("*= %g" % k)
-        elif op == "idiv":
-            k = rng.choice([2.0, 4.0])
-            s /= k
-            tr.tok("call:__itruediv__")
-            ctx.hist.append("/= %g" % k)
+        elif op in ("imul", "idiv"):
+            # metamorphic oracle, independent of the stored factors: values after = values before * k (or / k)
+            k = rng.choice([2.0, -0.5, 3.0, 0.7]) if op == "imul" else rng.choice([2.0, 4.0, 3.0, 0.7])
+            before = None
+            if rng.random() < 0.5:
+                with warnings.catch_warnings():
+                    warnings.simplefilter("ignore")
+                    before = np.array(s.values)
+                tr.tok("r:values")
+                tr.read_before = True
+            if op == "imul":
+                s *= k
+                tr.tok("call:__imul__")
+                ctx.hist.append("*= %g" % k)
+            else:
+                s /= k
+                tr.tok("call:__itruediv__")
+                ctx.hist.append("/= %g" % k)
+            if before is not None:
+                with warnings.catch_warnings():
+                    warnings.simplefilter("ignore")
+                    after = np.array(s.values)
+                tr.tok("r:values")
+                want = before * k if op == "imul" else before / k
+                sc = max(1e-300, float(np.max(np.abs(want))))
+                if not np.all(np.abs(after - want) <= 1e-9 * sc + 1e-13):    # (floor: a delay can empty the window)
+                    ctx.note("%s: values after `%s %g` are not the values before times/divided by the factor "
+                             "(max rel. deviation %.3g)" % (type(s).__name__, "*=" if op == "imul" else "/=", k,
+                                                           float(np.max(np.abs(after - want))) / sc))
+                ctx.hist.append("(values compared with the values before the scaling)")
         elif op == "filter":
             h, real = rng.choice(filters)
             s.filter_frequencies(h, force_real=real)
@@ -507,7 +530,7 @@ def signal_history(ctx, nsteps):
             force = rng.random() < 0.3
             if rng.random() < 0.5:
                 l = rng.choice([None, 0.0, 1.0, 2.6, 5.0]) if rng.random() < 0.9 else -1.0
-                t = rng.choice([None, 0.0, 3.0])
+                t = rng.choice([None, 0.0, 3.0]) if rng.random() < 0.85 else -2.0   # rejected AFTER the leading part
                 l = None if l is None else l * unit
                 t = None if t is None else t * unit
             else:
@@ -618,8 +641,20 @@ def make_tracer(run):
     kind = rng.choice(["SpecializedRayTracer", "SpecializedRayTracer", "BasicRayTracer", "UniformRayTracer",
                        "UniformRayTracer"] + (["LayeredRayTracer"] if E["LayeredRayTracer"] else []))
     a, b = rnd_point(rng, True), (rng.uniform(60, 400), rng.uniform(-40, 40), rng.uniform(-150, -20))
+    if rng.random() < 0.5:
+        # float arrays owned by the caller (the constructors copy them; the caller may edit them later)
+        a, b = np.array(a, dtype=float), np.array(b, dtype=float)
+    elif rng.random() < 0.3:
+        a, b = list(a), list(b)
+    E["last_ctor_args"] = (a, b)
     if kind == "UniformRayTracer":
-        return kind, R.UniformRayTracer(a, b, rng.choice(ices()[2:]))
+        cls = R.UniformRayTracer
+        if rng.random() < 0.35:
+            if "UserUniform" not in E:
+                E["UserUniform"] = type("UserUniformRayTracer", (R.UniformRayTracer,), {})   # inherits max_reflections
+            cls = E["UserUniform"]
+            run.count("user_subclass_tracer")
+        return kind, cls(a, b, rng.choice(ices()[2:]))
     if kind == "LayeredRayTracer":
         I = E["I"]
         lay = E["LayeredIce"]([I.UniformIce(1.35, valid_range=(-100, 0)), I.UniformIce(1.78, valid_range=(-2850, -100))])
@@ -634,10 +669,11 @@ def object_history(ctx, nsteps):
     np = E["np"]
     rng = ctx.run.rng
     kind, rt = make_tracer(ctx.run)
+    ctor_args = E.get("last_ctor_args")
     tr = Tracked(rt, kind, ["call:__init__"])
     tr.keys.append(keyset(rt))
     ctx.tracked.append(tr)
-    ctx.hist.append("new %s %s -> %s" % (kind, list(map(float, rt.from_point)), list(map(float, rt.to_point))))
+    ctx.hist.append("new %s %s -> %s" % (type(rt).__name__, list(map(float, rt.from_point)), list(map(float, rt.to_point))))
     for _ in range(nsteps):
         o = tr.obj
         is_tracer = hasattr(type(o), "solutions")
@@ -668,6 +704,16 @@ def object_history(ctx, nsteps):
                 ctx.hist.append("descend into solution %d (%s)" % (sols.index(p), type(p).__name__))
             continue
         cname = type(o).__name__
+        if cname.startswith("UserUniform"):
+            cname = "UniformRayTracer"
+        if o is rt and isinstance(ctor_args[0], np.ndarray) and rng.random() < 0.15:
+            # the caller edits the arrays it passed to the constructor: the tracer must not notice (it copied them)
+            ctor_args[rng.randrange(2)][2] -= 7.5
+            ctx.hist.append("caller edits its own constructor array in place")
+            ctx.run.count("caller_edits_ctor_array")
+            check_object(ctx, tr, None if rng.random() < 0.5 else [rng.choice(lazy_names(o))])
+            ctx.hist.append("read")
+            continue
         if r < 0.56:
             # in-place change of an endpoint array, then the SAME object goes through __setattr__
             attr = rng.choice(["from_point", "to_point"])
@@ -914,6 +960,24 @@ def known_probes(run):
         c = np.array(n.values)
         if np.array_equal(a, b) and not np.allclose(b, c):
             run.known_finding("K10")
+    known_probes_k16(run)
+
+
+def known_probes_k16(run):
+    """K19: a ray path shares the endpoint arrays of the tracer that created it"""
+    E = env()
+    np, R = E["np"], E["R"]
+    rt = R.SpecializedRayTracer((0, 0, -300.0), (150.0, 40.0, -100.0))
+    sols = rt.solutions
+    if not sols:
+        return
+    p = sols[0]
+    n0_before = float(p.n0)
+    rt.from_point += np.array([0.0, 0.0, -200.0])        # an attribute assignment on the TRACER
+    tw = twin_object(p)
+    run.case(("known", "K19"), sample={"shared_array": p.from_point is rt.from_point})
+    if p.from_point is rt.from_point and float(p.n0) == n0_before and abs(float(tw.n0) - n0_before) > 1e-6:
+        run.known_finding("K19")
 
 
 def replay(run, data):
